@@ -8,6 +8,7 @@ import QlibcModel.Conf.AconfNum
 import QlibcModel.Conf.AconfRender
 import QlibcModel.Conf.IniRound
 import QlibcModel.Conf.IniRefs
+import QlibcModel.Conf.IniInclude
 import QlibcModel.Conf.AconfFlat
 import QlibcModel.Conf.AconfNested
 import QlibcModel.Conf.AconfMalformed
@@ -61,8 +62,40 @@ example : LineOk [([], ⟨[76], .bare, []⟩), ([32, 9], ⟨[97, 32, 34, 98, 34]
       first | exact ⟨by decide, by decide, by decide, by decide⟩ | cases h
   · decide
 
+/-- K-gen tie of `qconfig_parse_file` (also an obligation of C17): the include directive of the model
+    is the `_INCLUDE_DIRECTIVE` string of the current source — `"@INCLUDE "`, nine bytes, the blank
+    included — so a changed macro (e.g. without the blank) breaks this proof before any test runs -/
+theorem ini_include_directive : Ini.directive = Generated.Conf.includeDirective ∧ Ini.directive.length = 9 ∧
+    Ini.directive.getLast? = some 32 := by decide
+
+/-- include_free_is_parseStr: a (NUL-free) file in which no LINE BEGINS with the nine bytes
+    `"@INCLUDE "` is parsed by `qconfig_parse_file` exactly like its content by `qconfig_parse_str`:
+    keys such as `@INCLUDES` / `@INCLUDE_DIR` / `@INCLUDE=x`, a bare `@INCLUDE`, `@INCLUDE` followed by
+    a TAB, the directive text in the middle of a line, in a comment, after leading blanks or in lower
+    case are ordinary text -/
+theorem include_free_is_parseStr (w : Ini.World) (fs : Bytes → Option Bytes) (sep : UInt8) (path data : Bytes)
+    (hfs : fs path = some data) (hnz : ∀ c ∈ data, c ≠ 0) (hfree : ¬ Ini.LineStartsWithDirective data) :
+    Ini.parseFile w fs sep path = (Ini.parseStr w sep data).map some :=
+  Ini.include_free_is_parseStr w fs sep path data hfs hnz hfree
+
+/-- include_splice: the first line that begins with `"@INCLUDE "` is replaced by the content of the file
+    it names (trimmed rest of the line; relative to the main file's directory unless it starts with `/`
+    or `\`) and nothing else changes — the text before it is kept, the text behind its line follows
+    the content, the include budget drops by one -/
+theorem include_splice (fs : Bytes → Option Bytes) (dir : Bytes) (left : Nat) (head pre raw tail path content : Bytes)
+    (hstart : pre = [] ∨ pre.getLast? = some 10)
+    (hfirst : ∀ p q, pre ++ Ini.directive ++ (raw ++ tail) = p ++ Ini.directive ++ q →
+      (p = [] ∨ p.getLast? = some 10) → pre.length ≤ p.length)
+    (hraw : ∀ c ∈ raw, c ≠ 10) (htail : tail = [] ∨ ∃ r, tail = 10 :: r) (hlen : raw.length < Generated.Conf.pathMax)
+    (hpath : Ini.includePath dir (Str.trim raw) = some path) (hne : path ≠ []) (hfs : fs path = some content) :
+    Ini.includeLoop fs dir (left + 1) head (pre ++ Ini.directive ++ (raw ++ tail)) =
+      Ini.includeLoop fs dir left (head ++ pre) (content.takeWhile (· != 0) ++ tail) :=
+  Ini.include_splice fs dir left head pre raw tail path content hstart hfirst hraw htail hlen hpath hne hfs
+
 /-- ini_roundtrip: for every document whose entry values are made of literal pieces and references
-    `${name}` / `${%ENV}` / `${!cmd}`, every separator that is not white space, every layout and
+    `${name}` / `${%ENV}` / `${!cmd}`, every separator that is neither white space nor NUL (hypotheses
+    `hsep`, `hs0`: a blank/tab/CR/LF separator is eaten by the trimming of the line, and with `'\0'`
+    `_q_makeword` takes the whole line as the name, see C17 `makeword_nul_stop`), every layout and
     every outside world: if at each line every reference resolves — `resolve` on the table built by
     the lines before it, i.e. the LATEST earlier definition of the full key (`tblGet` searches
     backward), the environment, or the command stub — to the annotated text, then
@@ -83,11 +116,11 @@ example : LineOk [([], ⟨[76], .bare, []⟩), ([32, 9], ⟨[97, 32, 34, 98, 34]
     Not covered by a theorem: deeper nesting, a `${` without closing `}` (the scan stops there and
     leaves the rest unexpanded), substituted texts that themselves contain `${` (rescanned by the
     code) — in the generated documents of the correspondence (checks/c20.py, `ini-grammar`). -/
-theorem ini_roundtrip (w : Ini.World) (sep : UInt8) (hsep : Str.isWs sep = false)
+theorem ini_roundtrip (w : Ini.World) (sep : UInt8) (hsep : Str.isWs sep = false) (hs0 : sep ≠ 0)
     (items : List (Ini.ItemR × Ini.Lay)) (finalNl : Bool) (hok : Ini.DocROk w sep none [] items) :
     Ini.parseStr w sep (Ini.renderDocR sep items finalNl) =
       .ok (Ini.expected none (items.map (·.1.meaning))) :=
-  Ini.parseStr_renderR w sep hsep items finalNl hok
+  Ini.parseStr_renderR w sep hsep hs0 items finalNl hok
 
 /-- non-vacuity: `a=1` followed by `b=${a}x` is an admissible document (the reference resolves in the
     table built by the first line) -/
@@ -110,16 +143,16 @@ example (w : Ini.World) : Ini.DocROk w 61 none []
     Generated.Conf.maxExpansions, Generated.Conf.maxValueSize]
 
 /-- ini_roundtrip_partial (the reference-free special case, kept for its simpler hypotheses): for every document of the reference-free grammar (blank lines, comments,
-    `[section]` / `[]` headers, `name sep value` entries), every separator that is not white
+    `[section]` / `[]` headers, `name sep value` entries), every separator that is not NUL and not white
     space, every layout (arbitrary blank/tab/CR runs around every token, optional final newline)
     and every outside world, `qconfig_parse_str` yields exactly the entries written, in file
     order, keys prefixed with `section.`, plus the marker entry `section.` = `section`; comments
     and blank lines contribute nothing. -/
-theorem ini_roundtrip_partial (w : Ini.World) (sep : UInt8) (hsep : Str.isWs sep = false)
+theorem ini_roundtrip_partial (w : Ini.World) (sep : UInt8) (hsep : Str.isWs sep = false) (hs0 : sep ≠ 0)
     (items : List (Ini.Item × Ini.Lay)) (finalNl : Bool)
     (hok : ∀ x ∈ items, Ini.ItemOk sep x.1 ∧ Ini.LayOk x.2) :
     Ini.parseStr w sep (Ini.renderDoc sep items finalNl) = .ok (Ini.expected none (items.map (·.1))) :=
-  Ini.parseStr_render w sep hsep items finalNl hok
+  Ini.parseStr_render w sep hsep hs0 items finalNl hok
 
 /-- non-vacuity: ` [ net ] \r`, `# c`, `port = 80` is an admissible document for `=` -/
 example : ∀ x ∈ [((Ini.Item.sect [110, 101, 116]), ({ a := [32], b := [32], c := [32], d := [32, 13] } : Ini.Lay)),
